@@ -12,6 +12,8 @@ def run(ctx):
     ctx.rule("R10-1", "text derived from env::var / Shell::get_env inside an expansion pass never reaches the argument of "
                       "a `$`-scanner (env_in_token, expand_one_env, ...) of the same pass")
     ctx.rule("R10-2", "expand_env acts only on tokens whose tag is not a single quote (E-TAG, class DQ)")
+    ctx.rule("R10-4", "`$NAME` yields the CURRENT value: the exported environment is read before the shell-local map "
+                      "(see C09 R09-7)")
     ctx.rule("R10-3", "$? formats previous_status, $$ formats getpid()")
     for crate in ctx.crates:
         b = crate.fn("shell::expand_env")
@@ -25,6 +27,8 @@ def run(ctx):
         res = etag.run_sites(ctx, "R10-2", crate, fn_filter=lambda p: p == "shell::expand_env")
         ctx.floor("R10-2", crate, "inspections in expand_env", len(res), 1)
         c03.dollar_rule(ctx, crate)
+        from .c09 import precedence_rule
+        precedence_rule(ctx, crate, "R10-4")
     # c03.dollar_rule registers under R03-4: relabel for this property
     for o in ctx.obligations:
         if o["rule"] == "R03-4":
